@@ -40,6 +40,8 @@ type pomDep struct {
 	VerCDATA   bool     `json:"ver_cdata,omitempty"`
 	Comment    string   `json:"comment,omitempty"` // comment inside the element
 	Order      int      `json:"order,omitempty"`   // 0: g,a,version,rest  1: version last  2: version first
+	Pad        string   `json:"pad,omitempty"`     // elements whose text has white space around it: g(roupId) a(rtifactId) t(ype) c(lassifier) v(ersion)
+	PadNL      bool     `json:"pad_nl,omitempty"`  // the padded values stand on a line of their own (else one blank on each side)
 }
 
 type pomProp struct {
@@ -55,6 +57,7 @@ type pomProfile struct {
 	Deps    []pomDep  `json:"deps,omitempty"`
 	Mgmt    []pomDep  `json:"mgmt,omitempty"`
 	HasMgmt bool      `json:"has_mgmt,omitempty"`
+	PadID   bool      `json:"pad_id,omitempty"` // white space around the text of <id>
 }
 
 type pomPlugin struct {
@@ -64,6 +67,7 @@ type pomPlugin struct {
 	Managed bool     `json:"managed"` // under build/pluginManagement/plugins (else build/plugins)
 	Deps    []pomDep `json:"deps,omitempty"`
 	Config  bool     `json:"config,omitempty"` // a <configuration> block with attributes and a nested <properties>
+	Pad     bool     `json:"pad,omitempty"`    // white space around the text of <groupId> and <artifactId>
 }
 
 type pomParentRef struct {
@@ -122,6 +126,27 @@ type pomCase struct {
 	ParentPath string        `json:"parent_path,omitempty"` // location of the parent file relative to in/, e.g. "parent/pom.xml" | "pom.xml" | "app/parent-pom.xml"
 	Ancestors  []pomAncestor `json:"ancestors,omitempty"`   // the local ancestors above Parent, nearest first
 	Updates    []pomUpdate   `json:"updates"`
+	OutTree    string        `json:"out_tree,omitempty"` // see c13Out
+	OutName    string        `json:"out_name,omitempty"`
+}
+
+// outPlaces returns the tree the writer is asked to write to and the places in it of the
+// poms of the chain: the manifest at the requested name in its own relative directory, its
+// local ancestors at the same place relative to it as in the input tree.
+func (c *pomCase) outPlaces() (tree string, rels []string, err error) {
+	ch := c.chain()
+	tree, rel, err := c13Out{Tree: c.OutTree, Name: c.OutName}.resolve(ch[0].path)
+	if err != nil {
+		return "", nil, err
+	}
+	rels = []string{rel}
+	for _, f := range ch[1:] {
+		if f.path == rel || strings.HasPrefix(f.path, rel+"/") {
+			return "", nil, fmt.Errorf("output place %s is the place of the local ancestor %s", rel, f.path)
+		}
+		rels = append(rels, f.path)
+	}
+	return tree, rels, nil
 }
 
 const pomDefaultChildPath = "app/pom.xml"
@@ -244,6 +269,21 @@ func (w *pomWriter) elem(depth int, name, text string) {
 	w.line(depth, "<"+name+">"+text+"</"+name+">")
 }
 
+// padded writes an element whose text may have white space around it, which Maven (and
+// the reader) ignore: one blank on each side, or the value on a line of its own.
+func (w *pomWriter) padded(depth int, name, text string, pad, nl bool) {
+	switch {
+	case !pad:
+		w.elem(depth, name, text)
+	case nl:
+		w.line(depth, "<"+name+">")
+		w.line(depth+1, text)
+		w.line(depth, "</"+name+">")
+	default:
+		w.elem(depth, name, " "+text+" ")
+	}
+}
+
 func xmlText(s string, cdata bool) string {
 	if cdata {
 		return "<![CDATA[" + s + "]]>"
@@ -255,16 +295,17 @@ func xmlText(s string, cdata bool) string {
 
 func (w *pomWriter) dep(depth int, d pomDep) {
 	w.line(depth, "<dependency>")
+	pad := func(which string) bool { return strings.Contains(d.Pad, which) }
 	ver := func() {
 		if d.Ver != "" {
-			w.elem(depth+1, "version", xmlText(d.Ver, d.VerCDATA))
+			w.padded(depth+1, "version", xmlText(d.Ver, d.VerCDATA), pad("v"), d.PadNL)
 		}
 	}
 	if d.Order == 2 {
 		ver()
 	}
-	w.elem(depth+1, "groupId", d.G)
-	w.elem(depth+1, "artifactId", d.A)
+	w.padded(depth+1, "groupId", d.G, pad("g"), d.PadNL)
+	w.padded(depth+1, "artifactId", d.A, pad("a"), d.PadNL)
 	if d.Comment != "" {
 		w.line(depth+1, "<!-- "+d.Comment+" -->")
 	}
@@ -272,10 +313,10 @@ func (w *pomWriter) dep(depth int, d pomDep) {
 		ver()
 	}
 	if d.Type != "" {
-		w.elem(depth+1, "type", d.Type)
+		w.padded(depth+1, "type", d.Type, pad("t"), d.PadNL)
 	}
 	if d.Classifier != "" {
-		w.elem(depth+1, "classifier", d.Classifier)
+		w.padded(depth+1, "classifier", d.Classifier, pad("c"), d.PadNL)
 	}
 	if d.Scope != "" {
 		w.elem(depth+1, "scope", d.Scope)
@@ -335,9 +376,9 @@ func (w *pomWriter) props(depth int, ps []pomProp, note string) {
 func (w *pomWriter) plugin(depth int, p pomPlugin) {
 	w.line(depth, "<plugin>")
 	if p.G != "" {
-		w.elem(depth+1, "groupId", p.G)
+		w.padded(depth+1, "groupId", p.G, p.Pad, false)
 	}
-	w.elem(depth+1, "artifactId", p.A)
+	w.padded(depth+1, "artifactId", p.A, p.Pad, false)
 	if p.V != "" {
 		w.elem(depth+1, "version", p.V)
 	}
@@ -422,7 +463,7 @@ func renderPom(f *pomFile) []byte {
 			w.line(1, "<profiles>")
 			for _, p := range f.Profiles {
 				w.line(2, "<profile>")
-				w.elem(3, "id", p.ID)
+				w.padded(3, "id", p.ID, p.PadID, false)
 				if p.Active {
 					w.line(3, "<activation>")
 					w.elem(4, "activeByDefault", "true")
@@ -583,6 +624,20 @@ func (n *xnode) textOf() string {
 	return strings.TrimSpace(s)
 }
 
+// isPadded: the element's text has white space around it.
+func (n *xnode) isPadded() bool {
+	if n == nil {
+		return false
+	}
+	var s string
+	for _, k := range n.kids {
+		if k.kind == xText {
+			s += k.text
+		}
+	}
+	return s != strings.TrimSpace(s)
+}
+
 func (n *xnode) path() string {
 	if n == nil || n.parent == nil {
 		return ""
@@ -683,6 +738,7 @@ type pomSlot struct {
 	excl     []maven.Exclusion
 	verNode  *xnode
 	verLit   string
+	padded   bool // white space around the text of the declaration's coordinates, or of the profile id / plugin coordinates that locate it
 }
 
 func (s *pomSlot) name() string { return s.g + ":" + s.a }
@@ -707,9 +763,10 @@ func (an *pomAnalysis) scan(file int, doc *xnode) error {
 	if proj == nil {
 		return fmt.Errorf("no <project>")
 	}
-	addDeps := func(parent *xnode, origin, profile string, active, visible bool) {
+	addDeps := func(parent *xnode, origin, profile string, active, visible, scopePadded bool) {
 		for _, d := range parent.child("dependencies").children("dependency") {
 			s := &pomSlot{file: file, origin: origin, profile: profile, active: active, visible: visible,
+				padded: scopePadded || d.child("groupId").isPadded() || d.child("artifactId").isPadded() || d.child("type").isPadded() || d.child("classifier").isPadded(),
 				g: d.child("groupId").textOf(), a: d.child("artifactId").textOf(), typ: d.child("type").textOf(),
 				classif: d.child("classifier").textOf(), scope: d.child("scope").textOf(), optional: d.child("optional").textOf()}
 			for _, e := range d.child("exclusions").children("exclusion") {
@@ -727,22 +784,23 @@ func (an *pomAnalysis) scan(file int, doc *xnode) error {
 		}
 	}
 	addProps(proj, "", false)
-	addDeps(proj, "", "", false, true)
+	addDeps(proj, "", "", false, true, false)
 	if dm := proj.child("dependencyManagement"); dm != nil {
-		addDeps(dm, "management", "", false, true)
+		addDeps(dm, "management", "", false, true, false)
 	}
 	for _, p := range proj.child("profiles").children("profile") {
 		id := p.child("id").textOf()
 		active := p.child("activation").child("activeByDefault").textOf() == "true"
 		vis := active && file == 0 // the reader merges only the child's default profiles
 		addProps(p, id, active)
-		addDeps(p, "profile@"+id, id, active, vis)
+		idPadded := p.child("id").isPadded()
+		addDeps(p, "profile@"+id, id, active, vis, idPadded)
 		if dm := p.child("dependencyManagement"); dm != nil {
-			addDeps(dm, "profile@"+id+"@management", id, active, vis)
+			addDeps(dm, "profile@"+id+"@management", id, active, vis, idPadded)
 		}
 	}
 	for _, p := range proj.child("build").child("pluginManagement").child("plugins").children("plugin") {
-		addDeps(p, "plugin@"+p.child("groupId").textOf()+":"+p.child("artifactId").textOf(), "", false, false)
+		addDeps(p, "plugin@"+p.child("groupId").textOf()+":"+p.child("artifactId").textOf(), "", false, false, p.child("groupId").isPadded() || p.child("artifactId").isPadded())
 	}
 	return nil
 }
@@ -904,6 +962,11 @@ func pomUpdateClasses(an *pomAnalysis, ups []pomUpdate, name string) []string {
 		if s.name() != name || s.verNode == nil {
 			continue
 		}
+		// white space around the coordinates of the declaration, or around the profile id /
+		// plugin coordinates that locate it
+		if s.padded {
+			set["c13.padded_coordinates"] = true
+		}
 		phs := placeholders(s.verLit)
 		if len(phs) == 0 {
 			continue
@@ -1006,6 +1069,10 @@ func mavenReqKey(r resolve.RequirementVersion) string {
 // so that whatever a case leaves there is removed before the next one.
 func (c *pomCase) write(ws *workspace) (docs [][]byte, err error) {
 	ch := c.chain()
+	tree, rels, err := c.outPlaces()
+	if err != nil {
+		return nil, err
+	}
 	inputs := map[string]bool{}
 	for _, f := range ch {
 		inputs["in/"+f.path] = true
@@ -1013,12 +1080,13 @@ func (c *pomCase) write(ws *workspace) (docs [][]byte, err error) {
 	if err = ws.reset(inputs); err != nil {
 		return
 	}
-	for _, f := range ch {
+	for i, f := range ch {
 		b := renderPom(f.file)
 		if err = ws.put("in/"+f.path, b); err != nil {
 			return
 		}
-		ws.files["out/"+f.path] = true
+		ws.files[tree+"/"+rels[i]] = true
+		ws.files[tree+"/"+f.path] = true // the same tree under the pom's own name
 		docs = append(docs, b)
 	}
 	return
@@ -1031,6 +1099,10 @@ func propC13Pom(c *pomCase) (ev.Outcome, error) {
 	}
 	chain := c.chain()
 	pomChildPath := chain[0].path
+	outTree, outRels, err := c.outPlaces()
+	if err != nil {
+		return o, fmt.Errorf("bad case: %v", err)
+	}
 	ws, err := c13Workspace()
 	if err != nil {
 		return o, fmt.Errorf("harness: %v", err)
@@ -1164,8 +1236,9 @@ func propC13Pom(c *pomCase) (ev.Outcome, error) {
 	}
 	ups = dedup
 
-	outRoot := filepath.Join(dir, "out")
-	werr := verifhooks.WriteManifest(resolve.Maven, fsys, pomChildPath, ups, filepath.Join(outRoot, pomChildPath))
+	outRoot := filepath.Join(dir, filepath.FromSlash(outTree))
+	outFile := outTree + "/" + outRels[0]
+	werr := verifhooks.WriteManifest(resolve.Maven, fsys, pomChildPath, ups, filepath.Join(outRoot, filepath.FromSlash(outRels[0])))
 	if werr != nil {
 		if len(ups) == 0 {
 			return o, fmt.Errorf("Write with no updates fails: %v", werr)
@@ -1173,17 +1246,27 @@ func propC13Pom(c *pomCase) (ev.Outcome, error) {
 		o.Classes = append(o.Classes, "pom_write_error")
 		return o, nil
 	}
-	// every pom of the chain is written, at the same place relative to the manifest
+	// every pom of the chain is written: the manifest at the output path, its local ancestors
+	// at the same place relative to it as before
 	var docsOut [][]byte
 	for i, f := range chain {
-		b, err := ws.output("out/" + f.path)
+		b, err := ws.output(outTree + "/" + outRels[i])
 		if err != nil {
 			if i == 0 {
-				return o, fmt.Errorf("Write returned nil but the output file is missing: %v", err)
+				return o, fmt.Errorf("Write returned nil but there is no file at the output path %s: %s", outFile, ws.rel(err))
 			}
-			return o, fmt.Errorf("Write returned nil (updates %s) but the local %s %s was not written beside the output: %v", describeUpdates(ups), pomFileName(i), f.path, err)
+			return o, fmt.Errorf("Write returned nil (updates %s) but the local %s %s was not written at %s/%s, its place relative to the output path %s: %s", describeUpdates(ups), pomFileName(i), f.path, outTree, outRels[i], outFile, ws.rel(err))
 		}
 		docsOut = append(docsOut, b)
+	}
+	// a pom whose output place is another path than its own is left alone
+	for i, f := range chain {
+		if outTree+"/"+outRels[i] == "in/"+f.path {
+			continue
+		}
+		if now, err := ws.output("in/" + f.path); err != nil || !bytes.Equal(now, docsIn[i]) {
+			return o, fmt.Errorf("Write to %s (updates %s) modified the original %s in/%s (err=%v): %s", outFile, describeUpdates(ups), pomFileName(i), f.path, err, firstDiff(docsIn[i], now))
+		}
 	}
 	anOut, err := analysePom(docsOut)
 	if err != nil {
@@ -1265,9 +1348,9 @@ func propC13Pom(c *pomCase) (ev.Outcome, error) {
 	}
 
 	// (2) the same through the reader: original requirement list with the versions substituted.
-	reqsOut, err := verifhooks.ReadManifest(resolve.Maven, scalibrfs.DirFS(outRoot), pomChildPath)
+	reqsOut, err := verifhooks.ReadManifest(resolve.Maven, scalibrfs.DirFS(outRoot), outRels[0])
 	if err != nil {
-		return o, fmt.Errorf("written pom.xml is not readable: %v", err)
+		return o, fmt.Errorf("written pom.xml (%s) is not readable: %v", outFile, err)
 	}
 	exp := make([]verifhooks.Requirement, len(reqsIn))
 	copy(exp, reqsIn)
@@ -1283,6 +1366,10 @@ func propC13Pom(c *pomCase) (ev.Outcome, error) {
 	// evidence
 	o.NonTrivial = len(ups) > 0
 	cls := map[string]bool{}
+	cls["pom_"+c13Out{Tree: c.OutTree, Name: c.OutName}.class()] = true
+	if c.Parent != nil {
+		cls["pom_local_parent_"+c13Out{Tree: c.OutTree, Name: c.OutName}.class()] = true
+	}
 	if len(ups) == 0 {
 		cls["pom_no_updates"] = true
 	}
@@ -1346,6 +1433,51 @@ func propC13Pom(c *pomCase) (ev.Outcome, error) {
 	}
 	if c.Child.NS {
 		cls["pom_namespaced"] = true
+	}
+	// white space around identifying text, and duplicate declarations in ancestors' scopes
+	for i, f := range chain {
+		var all []pomDep
+		all = append(append(all, f.file.Deps...), f.file.Mgmt...)
+		for _, p := range f.file.Profiles {
+			all = append(append(all, p.Deps...), p.Mgmt...)
+			if p.PadID {
+				cls["pom_padded_profile_id"] = true
+			}
+			if i > 0 && strings.HasPrefix(p.ID, "dup-") {
+				cls["pom_duplicate_in_ancestor_profile"] = true
+			}
+		}
+		for _, p := range f.file.Plugins {
+			all = append(all, p.Deps...)
+			if p.Pad {
+				cls["pom_padded_plugin_coordinates"] = true
+			}
+			if i > 0 && strings.HasPrefix(p.A, "dup-maven-plugin") {
+				cls["pom_duplicate_in_ancestor_plugin"] = true
+			}
+		}
+		for _, d := range all {
+			if strings.ContainsAny(d.Pad, "gatc") {
+				cls["pom_padded_dependency_coordinates"] = true
+				if i > 0 {
+					cls["pom_padded_dependency_coordinates_in_ancestor"] = true
+				}
+			}
+			if strings.Contains(d.Pad, "v") && d.Ver != "" {
+				cls["pom_padded_version"] = true
+			}
+			if d.Pad != "" && d.PadNL {
+				cls["pom_padded_value_on_own_line"] = true
+			}
+		}
+	}
+	for s := range slotHit {
+		if s.padded {
+			cls["pom_upd_padded_coordinates"] = true
+		}
+		if s.verNode.isPadded() {
+			cls["pom_upd_padded_version"] = true
+		}
 	}
 	for _, s := range an.slots {
 		if _, ok := to[s.name()]; !ok {
